@@ -28,6 +28,12 @@ CHECKS = {
  'C14': ('model_checking', 'B', 'stateless exploration of the adaptive controller under scripted error answers (full product of length L, deviation bound 2), trial log parsed from a recording Brownian proxy',
          "Every controller decision sequence within the bounds terminates (trial cap 2000), tiles [ts[0],ts[-1]] contiguously and ends exactly at ts[-1], respects dt_min except for the clipped last trial, accepts iff error<=1 or dt_min reached, retries rejected trials strictly smaller, and returns the two-half-step solution on the accepted steps (bitwise) with interpolated interior outputs; the error norm equals an independent implementation on an exhaustive grid; true error does not increase along tolerance ladders on GBM families.",
          "error answers from a 6-letter alphabet; 4 solver cells; the ladder uses 64 fixed paths and a factor-2 slack"),
+ 'C16': ('exploration', 'C+D', 'exhaustive enumeration of interface subsets x cells (bitwise vs the (f,g) variant) and of derived operators vs einsum definitions from explicit Jacobians',
+         "All 27 method subsets that define drift and diffusion, plain and renamed through `names`, on every supported cell: bit-identical solution or an explicit method-missing error, never a different number. g_prod, the Milstein g dg v term and both dg_ga_jvp_column_sum implementations equal their index definitions on programs with non-symmetric Jacobians and non-commuting columns.",
+         "program alphabet of mc/zoo.py; user-side products are written like the library defaults so bitwise equality is meaningful"),
+ 'C19': ('exploration', 'C', 'exhaustive enumeration of the configuration matrix of sdeint/sdeint_adjoint against the documentation table; spying Brownian proxy',
+         "Full product sde_type x noise_type x method x levy x {bm given, None} x adaptive x logqp (x grad_free), adjoint_method for every supported forward cell, 92 malformed-argument cases in both entry points, and the default-method table: documented cells run (and the solver that queries the proxy is the documented one), every other forward cell raises ValueError with zero Brownian queries, inadmissible adjoint methods raise out of backward() with no gradient populated.",
+         "oracle table transcribed from DOCUMENTATION.md and solver docstrings (log_ode from its module docstring); one tiny problem per (sde_type, noise_type)"),
 }
 def main():
     checks = []
